@@ -41,6 +41,10 @@ LzhInput buildInput(const Plan& plan) {
 			ref::LzhTokens t = ref::tokenize(in.payload, l.u("tseed", 1));
 			in.bytes = ref::lzhEncode(t, &in.tokens);
 			if (in.tokens != t.size()) in.payload.clear(); // capacity reached inside the payload: prefix clause not applicable
+		} else if (in.mode == "skewed") {
+			// may exceed the counter capacity: encoded with wide counters, one symbol dominating the statistics
+			ref::LzhTokens t = ref::skewedTokens(seed, n, l.u("num", 1), l.u("den", 1), l.u("dommatch", 0) != 0);
+			in.bytes = ref::lzhEncode(t, &in.tokens, true);
 		} else if (in.mode == "equal") {
 			in.bytes.assign(n, static_cast<uint8_t>(l.u("value", 0)));
 		} else if (in.mode == "random") {
@@ -73,7 +77,14 @@ struct LzhDrain : Family {
 		else if (k < 80) { w.set("mode", "random").set("seed", hex64(r.next())).set("n", r.chance(1, 6) ? r.below(6) : r.below(maxRandom)); }
 		else if (k < 90) { w.set("mode", "equal").set("value", r.chance(1, 2) ? (r.chance(1, 2) ? 0 : 255) : r.below(256)).set("n", r.below(3000)); }
 		else { // over capacity: more than 65221 codes
-			if (r.chance(1, 2)) w.set("mode", "equal").set("value", r.chance(1, 2) ? 0 : 255).set("n", r.range(9000, 20000));
+			if (r.chance(1, 3)) w.set("mode", "equal").set("value", r.chance(1, 2) ? 0 : 255).set("n", r.range(9000, 20000));
+			else if (r.chance(1, 2)) {
+				// token streams that run past the capacity with one symbol dominating (its leaf sits high in the tree at that point)
+				static const uint64_t NUM[] = {1, 9, 3, 2, 1, 1}, DEN[] = {1, 10, 4, 3, 2, 3};
+				size_t q = r.below(6);
+				bool dm = r.chance(1, 4);
+				w.set("mode", "skewed").set("seed", hex64(r.next())).set("n", r.range(65000, 69000)).set("num", NUM[q]).set("den", DEN[q]).set("dommatch", dm ? 1 : 0);
+			}
 			else w.set("mode", "random").set("seed", hex64(r.next())).set("n", r.range(110000, 160000));
 		}
 		if (k < 80 && r.chance(1, 4)) {
